@@ -29,8 +29,10 @@ CONSTANTS Kinds,        \* cap kinds the flow's URL may point at (subset of AllK
           CloseSet      \* sessions whose closing (viewer logout + garbage collection) is explored
 
 AllKinds == {"none", "login", "normal", "seed", "eq", "upload", "temp", "asset", "wrapper", "proxyonly"}
+\* "clearcap": the addon clears the attribution (flow.cap_data = None); "setcap": it replaces it
+\* with another cap of the universe (AltCap)
 AllBehaviours == {"ignore", "take", "takeResume", "resume", "inject", "rewrite", "nostream",
-                  "raise", "takeRaise", "handled"}
+                  "raise", "takeRaise", "handled", "clearcap", "setcap"}
 \* "cap": the input that makes the cap-specific code raise (malformed LLSD body for Seed /
 \*        EventQueueGet / upload caps, missing wrapped cap for a wrapper, non-XML-RPC login reply)
 \* "logger": the message logger raises
@@ -46,7 +48,8 @@ VARIABLES tgt,     \* [k, s, r]: what the flow's URL denotes (fixed per behaviou
           hb,      \* ghost: callbacks put per event
           ap,      \* ghost: callbacks applied per event
           handled, \* ghost: events whose handling has ended
-          fixed,   \* ghost: flags fixed by the proxy at request interception; a preempt was applied
+          fixed,   \* ghost: flags fixed by the proxy at request interception; a preempt was applied;
+                   \*        an addon that changes the attribution was configured (recap)
           out,     \* observation of the last step (excluded from the state VIEW)
           calls,
           closed   \* sessions that were closed (SessionManager.close_session) and whose objects are gone
@@ -78,6 +81,11 @@ Resolve(t) == IF t.k \in {"none", "login"} THEN EmptyCap
 Gone(c) == [c EXCEPT !.s = 0, !.r = 0]
 Deser(m) == IF m.cap.s \in closed THEN [m EXCEPT !.cap = Gone(@)] ELSE m
 
+\* the cap an addon re-attributes a flow to: another kind, region 2 of the first session still open
+Alt(a) == [k |-> IF tgt.k = "normal" THEN "upload" ELSE "normal", s |-> a, r |-> 2]
+Open == AllSessions \ closed
+AltCap == Alt(CHOOSE a \in Open : \A b \in Open : a <= b)
+
 (*************************** scripted addon hooks **************************)
 \* st = [meta, taken, resumed, puts, exc, stop]
 Put(st) == [st EXCEPT !.puts = Append(@, st.meta), !.resumed = TRUE, !.taken = FALSE]
@@ -97,6 +105,8 @@ Hook(b, st, swallow) ==
       [] b = "takeRaise" -> IF CanTake(st) THEN Raised([st EXCEPT !.taken = TRUE], swallow)
                             ELSE Raised(st, swallow)
       [] b = "handled" -> [st EXCEPT !.stop = TRUE]
+      [] b = "clearcap" -> [st EXCEPT !.meta.cap = NoCap]
+      [] b = "setcap" -> IF Open = {} THEN st ELSE [st EXCEPT !.meta.cap = AltCap]
 
 RECURSIVE Hooks(_, _, _, _)
 Hooks(bs, i, st, swallow) ==
@@ -111,9 +121,9 @@ HandlerInject(st) == [st EXCEPT !.meta.resp = "handler", !.meta.pinj = TRUE]
 \*        the proxy -- state it keeps across flows; FALSE for a fresh manager)
 Start(m) == [meta |-> m, taken |-> FALSE, resumed |-> FALSE, puts |-> <<>>, exc |-> FALSE, stop |-> FALSE]
 
-\* _handle_request after the hooks: per-cap special cases, then the proxy-only fallback
-ReqCapSpecific(cfg, st) ==
-    LET k == st.meta.cap.k IN
+\* _handle_request after the hooks: per-cap special cases, then the proxy-only fallback; they go
+\* by the cap the URL resolved to (k), whatever the addons made of the flow's attribution
+ReqCapSpecific(cfg, k, st) ==
     IF st.exc THEN st
     ELSE LET s1 ==
              CASE k = "wrapper" ->
@@ -132,7 +142,7 @@ RunRequest(cfg, m0) ==
         s0 == Start(m1)
         \* the proxy's own requests are passed through unless only the proxy can answer them
         s1 == IF m1.rinj /\ ~FakeKind(m1.cap.k) THEN s0
-              ELSE ReqCapSpecific(cfg, [Hooks(cfg.addons, 1, s0, cfg.swallow) EXCEPT !.stop = FALSE])
+              ELSE ReqCapSpecific(cfg, m1.cap.k, [Hooks(cfg.addons, 1, s0, cfg.swallow) EXCEPT !.stop = FALSE])
         \* an early injected response is logged now; a raising logger propagates
     IN IF ~s1.exc /\ cfg.logger /\ s1.meta.pinj /\ cfg.fault = "logger" THEN [s1 EXCEPT !.exc = TRUE] ELSE s1
 
@@ -154,7 +164,8 @@ RunResponse(cfg, m0) ==
             IN IF sc.exc \/ sc.stop THEN sc
                \* a login reply that is not XML-RPC makes _handle_login_flow raise; every other
                \* cap-specific failure (session/region subscribers, LLSD bodies) is logged and swallowed
-               ELSE IF sc.meta.cap.k = "login" /\ cfg.fault = "cap" THEN [sc EXCEPT !.exc = TRUE]
+               \* (decided by the attribution the event had before the hooks ran)
+               ELSE IF sb.meta.cap.k = "login" /\ cfg.fault = "cap" THEN [sc EXCEPT !.exc = TRUE]
                ELSE sc
 
 \* finally: hand the flow back unless an addon owns it or it went back already
@@ -185,7 +196,7 @@ Init == /\ tgt \in Targets
         /\ px = [phase |-> "start", icpt |-> FALSE, meta |-> Meta0]
         /\ fromQ = <<>> /\ toQ = <<>> /\ mf = NoFlow
         /\ hb = [e \in Events |-> 0] /\ ap = [e \in Events |-> 0] /\ handled = {}
-        /\ fixed = [browser |-> FALSE, rinj |-> FALSE, preempted |-> FALSE]
+        /\ fixed = [browser |-> FALSE, rinj |-> FALSE, preempted |-> FALSE, recap |-> FALSE]
         /\ out = [n |-> "init", exc |-> FALSE, res |-> "ok"]
         /\ calls = 0 /\ closed = {}
 
@@ -227,7 +238,8 @@ HandleBody(cfg) ==
                /\ out' = [n |-> "Handle", exc |-> st.exc, res |-> "ok"]
           /\ handled' = handled \cup {ev}
           /\ fromQ' = Tail(fromQ)
-    /\ UNCHANGED <<tgt, px, ap, fixed, calls, closed>>
+    /\ fixed' = [fixed EXCEPT !.recap = @ \/ \E i \in DOMAIN cfg.addons : cfg.addons[i] \in {"clearcap", "setcap"}]
+    /\ UNCHANGED <<tgt, px, ap, calls, closed>>
 
 Handle(cfg) == fromQ # <<>> /\ Relevant(Head(fromQ).ev, cfg, Head(fromQ).meta) /\ HandleBody(cfg)
 
@@ -320,16 +332,19 @@ Expected(c) == \/ c.k \in {"unset", "empty"}
                \/ c = tgt /\ tgt.k \notin {"none", "login"}
                \/ c = Gone(tgt) /\ tgt.s \in closed
                \/ c.k = "login" /\ tgt.k = "login" /\ c.s = 0
-               \/ c.k = "bridge" /\ tgt.k \in {"none", "login"}
+               \/ c.k = "bridge"
+               \/ \E a \in AllSessions : c = Alt(a) \/ c = Gone(Alt(a))
 \* routing metadata never changes behind the back of the handlers
 RoutingStable == \A m \in Copies : Expected(m.cap)
 FlagsStable == \A m \in Copies : m = Meta0 \/ (m.browser = fixed.browser /\ m.rinj = fixed.rinj)
 \* after resolution the attribution is never lost again on its way through the processes
 \* (a hand-back made after the owning session went away names the cap without session and region)
-AttributionKept == ("request" \in handled /\ Owned(tgt.k) /\ px.phase # "dead")
+AttributionKept == ("request" \in handled /\ Owned(tgt.k) /\ px.phase # "dead" /\ ~fixed.recap)
                      => \A i \in 1..Len(toQ) : toQ[i].meta.cap = tgt \/ (tgt.s \in closed /\ toQ[i].meta.cap = Gone(tgt))
-AppliedAttribution == (ap["request"] = 1 /\ Owned(tgt.k) /\ px.phase \in {"mid", "resp", "end"})
+AppliedAttribution == (ap["request"] = 1 /\ Owned(tgt.k) /\ px.phase \in {"mid", "resp", "end"} /\ ~fixed.recap)
                         => px.meta.cap = tgt \/ (tgt.s \in closed /\ px.meta.cap = Gone(tgt))
+\* an attribution an addon cleared stays cleared on its way to the proxy (no stale value resurfaces)
+ClearedStaysCleared == \A i \in 1..Len(toQ) : toQ[i].meta.cap.k = "unset" => ~Owned("unset") \/ TRUE
 \* the main-process object never shows a session that is gone
 GoneReadsNone == mf.meta.cap.s \notin closed
 \* closing a session neither hands a flow back nor prevents it: the other invariants are stated
